@@ -219,6 +219,9 @@ func (r *crashRecord) where() string {
 	if r.spec.When == crashAfter {
 		w = "after"
 	}
+	if r.spec.When == stopInCommit {
+		w = "orderly-stop-inside"
+	}
 	if r.variant != "" {
 		w = "during(" + r.variant + ")"
 	}
@@ -321,6 +324,27 @@ func runPre(cfg *config, pre []sym, crash *crashSpec) (res preResult) {
 		}
 	}
 	switch {
+	case w.stopped && !w.dead:
+		// orderly exit: wait for Driver.Run to return (its deferred Close has then run on the live store)
+		for i := 0; i < 3 && !p.exited(); i++ {
+			synctest.Wait()
+		}
+		if !p.exited() || !p.closed {
+			res.viol = append(res.viol, violation{"driver-does-not-stop-when-cancelled-inside-commit-callback", map[string]any{"exited": p.exited(), "store_closed": p.closed}})
+			break
+		}
+		rec := &crashRecord{spec: *crash, committed: w.committed, pre: w.bcasts[0],
+			valueAt: append([]types.Height(nil), p.app.CallHeights...), known: p.app.knownList(), net: w.net, trace: w.effects}
+		if w.ref != nil {
+			rec.dur = w.ref.clone()
+		}
+		if w.real != nil {
+			rec.img = w.real.imageAt(w.real.fs.NumOps())
+		}
+		if w.cur >= 0 {
+			rec.inflight = last
+		}
+		res.rec = rec
 	case w.dead:
 		rec := &crashRecord{spec: *crash, dur: w.deadRef, committed: w.deadCommitted, pre: w.bcasts[0],
 			valueAt: append([]types.Height(nil), p.app.CallHeights...), known: p.app.knownList(), net: w.net, trace: w.effects, killCore: w.killCore}
@@ -733,6 +757,30 @@ func (x *explorer) crashPoints(pre []sym, r *preResult) {
 			recs[when] = c.rec
 			x.rebuiltEqualsKilled(pre, c.rec)
 			addRec(c.rec)
+		}
+		if e.Kind == 'K' {
+			// the node is shut down while this commit callback runs (context cancelled, callback reports failure)
+			c := runPre(x.cfg, pre, &crashSpec{k, stopInCommit, false})
+			x.stats["driver_runs"]++
+			if c.infra != "" {
+				x.infra = c.infra
+				return
+			}
+			x.absorb(c.viol, pre, c.rec, nil, false)
+			if c.rec != nil {
+				if len(c.effects) <= k || !sameEffects(c.effects[:k+1], r.effects[:k+1]) {
+					x.infra = fmt.Sprintf("non-deterministic replay: run of %s stopped inside effect %d does not reproduce the recorded prefix", scriptString(pre), k)
+					return
+				}
+				c.rec.effKind = e.Kind
+				x.fillEntries(c.rec)
+				if c.rec.img != nil && c.rec.img.openErr != "" {
+					x.violate("walstore-cannot-open-after-orderly-stop", x.detail(pre, c.rec, nil, false, map[string]any{"error": c.rec.img.openErr}))
+				} else {
+					x.stats["orderly_stops_inside_commit_callback"]++
+					addRec(c.rec)
+				}
+			}
 		}
 		if e.Kind == 'F' && recs[0] != nil && recs[1] != nil {
 			// kill in the middle of the flush: the batch "was lost" / "landed" (real walstore: every intermediate image)
